@@ -1,8 +1,12 @@
 import GoagModel.Props.C06
+import GoagModel.JsonLemmas
 /-
   C06 — the round trip through the whole schema tree, for the fragment of schemas made of
-  primitive leaves (nullable or not), arrays (nullable or not) and objects without
-  additionalProperties (nullable or not), nested to ANY depth.
+  primitive leaves (nullable or not), arrays (nullable or not) and objects with or without
+  additionalProperties (nullable or not), nested to ANY depth ("map entries are preserved": a
+  non-empty map whose keys are distinct and are not declared property names comes back with the
+  same entries in the same order; an empty map is outside the fragment because it decodes to the
+  nil map).
 
   `rt tbl s v` says that `v` is a value of schema `s` in that fragment whose leaves the library
   round-trips (the leaf table maps the leaf's canonical text back to the same dump and text;
@@ -10,8 +14,8 @@ import GoagModel.Props.C06
   property names.  Then decoding what the encoder wrote gives back exactly `v`: unset optionals
   stay unset, nulls stay null, every element and property is preserved.
 
-  Outside the fragment (maps, allOf, oneOf, untyped values, nil slices, which need a normal form
-  for "equal") the round trip is validated per generated type, not proved.
+  Outside the fragment (allOf, oneOf, untyped values, nil slices and empty maps, which need a
+  normal form for "equal") the round trip is validated per generated type, not proved.
 -/
 namespace Goag.JsonM
 
@@ -31,8 +35,12 @@ def rt (tbl : LeafDec) : Schema → Val → Bool
   | .prim _ nl, .null => nl
   | .arr items _, .arr vs => rtList tbl items vs
   | .arr _ nl, .null => nl
-  | .obj fields none _, .obj fs none => rtFields tbl fields fs && decide ((fields.map (·.1)).Nodup)
-  | .obj _ none nl, .null => nl
+  | .obj fields _ _, .obj fs none => rtFields tbl fields fs && decide ((fields.map (·.1)).Nodup)
+  | .obj fields (some a) _, .obj fs (some xs) =>
+    rtFields tbl fields fs && decide ((fields.map (·.1)).Nodup) && rtAddl tbl a xs && !xs.isEmpty &&
+      decide ((xs.map (·.1)).Nodup) && decide (∀ k ∈ xs.map (·.1), k ∉ fields.map (·.1))
+  | .obj _ _ nl, .null => nl
+  | .allOf members, .obj fs none => rtMembers tbl members fs && decide ((declaredNames members).Nodup)
   | _, _ => false
 def rtList (tbl : LeafDec) : Schema → List Val → Bool
   | _, [] => true
@@ -41,6 +49,17 @@ def rtFields (tbl : LeafDec) : List (String × Bool × Schema) → List Val → 
   | [], [] => true
   | (_, req, s) :: fs, v :: vs =>
     (if isUnset v then !req else rt tbl s v) && rtFields tbl fs vs
+  | _, _ => false
+def rtAddl (tbl : LeafDec) : Schema → List (String × Val) → Bool
+  | _, [] => true
+  | s, (_, v) :: xs => rt tbl s v && rtAddl tbl s xs
+/-- allOf of objects without additionalProperties: a member given by reference is one embedded
+    struct value, the properties of an inline member are the next fields of the outer struct -/
+def rtMembers (tbl : LeafDec) : List (Bool × Schema) → List Val → Bool
+  | [], [] => true
+  | (true, .obj fields none _) :: ms, (.obj fs none) :: vs => rtFields tbl fields fs && rtMembers tbl ms vs
+  | (false, .obj fields none _) :: ms, vs =>
+    rtFields tbl fields (vs.take fields.length) && rtMembers tbl ms (vs.drop fields.length)
   | _, _ => false
 end
 
@@ -69,24 +88,170 @@ theorem list_roundtrip (tbl : LeafDec) (s : Schema)
         subst hj
         simp only [decodeList, hS v j h.1 hv, ih js' h.2 hl]
 
-/-- the two statements, for all schemas / property lists up to a size bound (plain induction on the
+/-- maps: if every value round-trips, the entries do, keys and order included -/
+theorem addl_roundtrip (tbl : LeafDec) (s : Schema)
+    (hS : ∀ v j, rt tbl s v = true → toJ s v = .ok j → decode tbl s j = .ok v) :
+    ∀ (xs : List (String × Val)) (xm : List (String × J)), rtAddl tbl s xs = true → toJAddl s xs = .ok xm →
+      decodeAddl tbl s xm = .ok xs ∧ xm.map (·.1) = xs.map (·.1) := by
+  intro xs
+  induction xs with
+  | nil =>
+    intro xm _ hj
+    simp only [toJAddl, Except.ok.injEq] at hj
+    subst hj
+    simp [decodeAddl]
+  | cons x xt ih =>
+    obtain ⟨k, v⟩ := x
+    intro xm h hj
+    simp only [rtAddl, Bool.and_eq_true] at h
+    simp only [toJAddl] at hj
+    cases hv : toJ s v with
+    | error e => simp [hv] at hj
+    | ok j =>
+      cases hl : toJAddl s xt with
+      | error e => simp [hv, hl] at hj
+      | ok xm' =>
+        simp only [hv, hl, Except.ok.injEq] at hj
+        subst hj
+        obtain ⟨hd, hk⟩ := ih xm' h.2 hl
+        simp only [decodeAddl, hS v j h.1 hv, hd, List.map_cons, hk, and_self]
+
+/-- what the composite writes carries declared names only, in declaration order -/
+theorem toJMembers_names_declared (tbl : LeafDec) (members : List (Bool × Schema)) :
+    ∀ (vs : List Val) (ms : List (String × J)), rtMembers tbl members vs = true → toJMembers members vs = .ok ms →
+      (ms.map (·.1)).Sublist (declaredNames members) := by
+  induction members with
+  | nil =>
+    intro vs ms h hj
+    cases vs with
+    | nil => simp only [toJMembers, Except.ok.injEq] at hj; subst hj; simp [declaredNames]
+    | cons _ _ => simp [rtMembers] at h
+  | cons m rest ih =>
+    obtain ⟨b, s⟩ := m
+    intro vs ms h hj
+    cases s with
+    | obj fields a nl =>
+      simp only [declaredNames]
+      cases a with
+      | some _ => cases b <;> cases vs <;> simp [rtMembers] at h
+      | none =>
+        cases b with
+        | true =>
+          cases vs with
+          | nil => simp [rtMembers] at h
+          | cons v vt =>
+            cases v with
+            | obj fs ax =>
+              cases ax with
+              | some _ => simp [rtMembers] at h
+              | none =>
+                simp only [rtMembers, Bool.and_eq_true] at h
+                simp only [toJMembers] at hj
+                cases hjv : toJ (.obj fields none nl) (.obj fs none) with
+                | error e => simp [hjv] at hj
+                | ok j =>
+                  obtain ⟨mm, hjm, hf⟩ := toJ_obj_none fields nl fs j hjv
+                  subst hjm
+                  cases hr : toJMembers rest vt with
+                  | error e => simp [hjv, hr] at hj
+                  | ok more =>
+                    simp only [hjv, hr, Except.ok.injEq] at hj
+                    subst hj
+                    rw [List.map_append]
+                    exact (toJFields_names_declared fields fs mm [] hf).append (ih vt more h.2 hr)
+            | leaf _ _ => simp [rtMembers] at h
+            | null => simp [rtMembers] at h
+            | unset => simp [rtMembers] at h
+            | arr _ => simp [rtMembers] at h
+            | nilarr => simp [rtMembers] at h
+            | alt _ _ => simp [rtMembers] at h
+        | false =>
+          simp only [rtMembers, Bool.and_eq_true] at h
+          simp only [toJMembers] at hj
+          cases hf : toJFields fields vs with
+          | error e => simp [hf] at hj
+          | ok p =>
+            obtain ⟨mm, restv⟩ := p
+            simp only [hf] at hj
+            have hrestv := toJFields_rest fields vs mm restv hf
+            cases hr : toJMembers rest restv with
+            | error e => simp [hr] at hj
+            | ok more =>
+              simp only [hr, Except.ok.injEq] at hj
+              subst hj
+              rw [hrestv] at hr
+              rw [List.map_append]
+              exact (toJFields_names_declared fields vs mm restv hf).append (ih _ more h.2 hr)
+    | prim _ _ => cases b <;> cases vs <;> simp [rtMembers] at h
+    | any => cases b <;> cases vs <;> simp [rtMembers] at h
+    | arr _ _ => cases b <;> cases vs <;> simp [rtMembers] at h
+    | allOf _ => cases b <;> cases vs <;> simp [rtMembers] at h
+    | oneOf _ _ => cases b <;> cases vs <;> simp [rtMembers] at h
+
+theorem laterAddl_false_of_rt (tbl : LeafDec) (members : List (Bool × Schema)) :
+    ∀ vs, rtMembers tbl members vs = true → laterAddl members = false := by
+  induction members with
+  | nil => intro _ _; rfl
+  | cons m rest ih =>
+    obtain ⟨b, s⟩ := m
+    intro vs h
+    cases s with
+    | obj fields a nl =>
+      cases a with
+      | some _ => cases b <;> cases vs <;> simp [rtMembers] at h
+      | none =>
+        cases b with
+        | true =>
+          cases vs with
+          | nil => simp [rtMembers] at h
+          | cons v vt =>
+            cases v with
+            | obj fs ax =>
+              cases ax with
+              | none =>
+                simp only [rtMembers, Bool.and_eq_true] at h
+                simp only [laterAddl]
+                exact ih vt h.2
+              | some _ => simp [rtMembers] at h
+            | leaf _ _ => simp [rtMembers] at h
+            | null => simp [rtMembers] at h
+            | unset => simp [rtMembers] at h
+            | arr _ => simp [rtMembers] at h
+            | nilarr => simp [rtMembers] at h
+            | alt _ _ => simp [rtMembers] at h
+        | false =>
+          simp only [rtMembers, Bool.and_eq_true] at h
+          simp only [laterAddl]
+          exact ih _ h.2
+    | prim _ _ => cases b <;> cases vs <;> simp [rtMembers] at h
+    | any => cases b <;> cases vs <;> simp [rtMembers] at h
+    | arr _ _ => cases b <;> cases vs <;> simp [rtMembers] at h
+    | allOf _ => cases b <;> cases vs <;> simp [rtMembers] at h
+    | oneOf _ _ => cases b <;> cases vs <;> simp [rtMembers] at h
+
+/-- the three statements, for all schemas / property lists / member lists up to a size bound (plain induction on the
     bound; Lean's mutual well-founded recursion is not used) -/
 theorem rt_all (tbl : LeafDec) : ∀ n : Nat,
     (∀ (s : Schema) (v : Val) (j : J), sizeOf s ≤ n → rt tbl s v = true → toJ s v = .ok j → decode tbl s j = .ok v) ∧
-    (∀ (fields : List (String × Bool × Schema)) (vs : List Val) (ms : List (String × J)), sizeOf fields ≤ n →
-      rtFields tbl fields vs = true → (fields.map (·.1)).Nodup →
-      toJFields fields vs = .ok (ms, []) → decodeFields tbl fields ms = .ok (vs, [])) := by
+    (∀ (fields : List (String × Bool × Schema)) (vs : List Val) (ms xm : List (String × J)), sizeOf fields ≤ n →
+      rtFields tbl fields vs = true → (fields.map (·.1)).Nodup → (∀ k ∈ xm.map (·.1), k ∉ fields.map (·.1)) →
+      toJFields fields vs = .ok (ms, []) → decodeFields tbl fields (ms ++ xm) = .ok (vs, xm)) ∧
+    (∀ (members : List (Bool × Schema)) (vs : List Val) (ms : List (String × J)), sizeOf members ≤ n →
+      rtMembers tbl members vs = true → (declaredNames members).Nodup →
+      toJMembers members vs = .ok ms → decodeMembers tbl members ms = .ok (vs, [])) := by
   intro n
   induction n with
   | zero =>
-    constructor
+    refine ⟨?_, ?_, ?_⟩
     · intro s v j hle
       cases s <;> simp at hle
-    · intro fields vs ms hle
+    · intro fields vs ms xm hle
       cases fields <;> simp at hle
+    · intro members vs ms hle
+      cases members <;> simp at hle
   | succ n ih =>
-    obtain ⟨ihS, ihF⟩ := ih
-    constructor
+    obtain ⟨ihS, ihF, ihM⟩ := ih
+    refine ⟨?_, ?_, ?_⟩
     · intro s v j hle h hj
       cases s with
       | prim k nl =>
@@ -142,53 +307,106 @@ theorem rt_all (tbl : LeafDec) : ∀ n : Nat,
         | alt _ _ => simp [rt] at h
       | obj fields addl nl =>
         have hsz : sizeOf fields ≤ n := by simp at hle; omega
-        cases addl with
-        | some a => cases v <;> simp [rt] at h
-        | none =>
-          cases v with
-          | obj fs ax =>
+        cases v with
+        | obj fs ax =>
+          have hcommon : rtFields tbl fields fs = true ∧ (fields.map (·.1)).Nodup := by
             cases ax with
-            | some xs => simp [rt] at h
-            | none =>
-              simp only [rt, Bool.and_eq_true, decide_eq_true_eq] at h
-              simp only [toJ] at hj
-              cases hf : toJFields fields fs with
-              | error e => simp [hf] at hj
-              | ok p =>
-                obtain ⟨ms, rest⟩ := p
-                simp only [hf] at hj
-                cases hr : rest.isEmpty with
-                | false => simp [hr] at hj
-                | true =>
-                  have hrest : rest = [] := by cases rest <;> simp_all
-                  subst hrest
-                  simp only [List.isEmpty_nil, Bool.not_true, Bool.false_eq_true, if_false, Except.ok.injEq] at hj
-                  subst hj
-                  simp only [decode, ihF fields fs ms hsz h.1 h.2 hf]
-          | null =>
-            simp only [rt] at h
-            simp only [toJ, h, if_true, Except.ok.injEq] at hj
-            subst hj
-            simp [decode, h]
-          | leaf _ _ => simp [rt] at h
-          | unset => simp [rt] at h
-          | arr _ => simp [rt] at h
-          | nilarr => simp [rt] at h
-          | alt _ _ => simp [rt] at h
-      | allOf ms => cases v <;> simp [rt] at h
+            | none => simpa [rt] using h
+            | some xs =>
+              cases addl with
+              | none => simp [rt] at h
+              | some a =>
+                simp only [rt, Bool.and_eq_true, decide_eq_true_eq] at h
+                exact ⟨h.1.1.1.1.1, h.1.1.1.1.2⟩
+          simp only [toJ] at hj
+          cases hf : toJFields fields fs with
+          | error e => simp [hf] at hj
+          | ok p =>
+            obtain ⟨ms, rest⟩ := p
+            simp only [hf] at hj
+            cases hr : rest.isEmpty with
+            | false => simp [hr] at hj
+            | true =>
+              have hrest : rest = [] := by cases rest <;> simp_all
+              subst hrest
+              simp only [List.isEmpty_nil, Bool.not_true, Bool.false_eq_true, if_false] at hj
+              cases ax with
+              | none =>
+                have hms : j = .obj ms := by
+                  cases addl <;> simp_all
+                subst hms
+                have hdec := ihF fields fs ms [] hsz hcommon.1 hcommon.2 (by simp) hf
+                rw [List.append_nil] at hdec
+                cases addl with
+                | none => simp only [decode, hdec]
+                | some a => simp only [decode, hdec, decodeAddl]
+              | some xs =>
+                cases addl with
+                | none => simp [rt] at h
+                | some a =>
+                  have ha : sizeOf a ≤ n := by simp at hle; omega
+                  simp only [rt, Bool.and_eq_true, decide_eq_true_eq, Bool.not_eq_true'] at h
+                  obtain ⟨⟨⟨⟨_, hra⟩, hne⟩, _⟩, hdis⟩ := h
+                  cases hx : toJAddl a xs with
+                  | error e => simp [hx, Except.map] at hj
+                  | ok xm =>
+                    simp only [hx, Except.map, Except.ok.injEq] at hj
+                    subst hj
+                    obtain ⟨hda, hkeys⟩ := addl_roundtrip tbl a (fun v j => ihS a v j ha) xs xm hra hx
+                    have hdis' : ∀ k ∈ xm.map (·.1), k ∉ fields.map (·.1) := by rw [hkeys]; exact hdis
+                    have hdec := ihF fields fs ms xm hsz hcommon.1 hcommon.2 hdis' hf
+                    simp only [decode, hdec, hda]
+                    cases xs with
+                    | nil => simp at hne
+                    | cons x xt => rfl
+        | null =>
+          simp only [rt] at h
+          simp only [toJ, h, if_true, Except.ok.injEq] at hj
+          subst hj
+          simp [decode, h]
+        | leaf _ _ => cases addl <;> simp [rt] at h
+        | unset => cases addl <;> simp [rt] at h
+        | arr _ => cases addl <;> simp [rt] at h
+        | nilarr => cases addl <;> simp [rt] at h
+        | alt _ _ => cases addl <;> simp [rt] at h
+      | allOf members =>
+        have hsz : sizeOf members ≤ n := by simp at hle; omega
+        cases v with
+        | obj fs ax =>
+          cases ax with
+          | some _ => simp [rt] at h
+          | none =>
+            simp only [rt, Bool.and_eq_true, decide_eq_true_eq] at h
+            simp only [toJ] at hj
+            cases hm : toJMembers members fs with
+            | error e => simp [hm] at hj
+            | ok ms =>
+              simp only [hm, Except.ok.injEq] at hj
+              subst hj
+              simp only [decode, ihM members fs ms hsz h.1 h.2 hm, laterAddl_false_of_rt tbl members fs h.1]
+              rfl
+        | null => simp [rt] at h
+        | leaf _ _ => simp [rt] at h
+        | unset => simp [rt] at h
+        | arr _ => simp [rt] at h
+        | nilarr => simp [rt] at h
+        | alt _ _ => simp [rt] at h
       | oneOf alts d => cases v <;> simp [rt] at h
-    · intro fields vs ms hle h hnd hj
+    · intro fields vs ms xm hle h hnd hdis hj
       cases fields with
       | nil =>
         cases vs with
         | nil =>
           simp only [toJFields, Except.ok.injEq, Prod.mk.injEq] at hj
           rw [← hj.1, decodeFields]
+          rfl
         | cons _ _ => simp [rtFields] at h
       | cons f fs =>
         obtain ⟨name, req, s⟩ := f
         have hs : sizeOf s ≤ n := by simp at hle; omega
         have hfs : sizeOf fs ≤ n := by simp at hle; omega
+        have hnx : name ∉ xm.map (·.1) := fun hm => (hdis name hm) (by simp)
+        have hdis' : ∀ k ∈ xm.map (·.1), k ∉ fs.map (·.1) := fun k hk hm => (hdis k hk) (by simp [hm])
         cases vs with
         | nil => simp [rtFields] at h
         | cons v vt =>
@@ -201,10 +419,12 @@ theorem rt_all (tbl : LeafDec) : ∀ n : Nat,
             simp only [isUnset, if_true, Bool.not_eq_true'] at h
             simp only [h.1, Bool.false_eq_true, if_false] at hj
             have hsub := toJFields_names_declared fs vt ms [] hj
-            have habs : name ∉ ms.map (·.1) := fun hm => hname (hsub.subset hm)
-            rw [decodeFields, lookupAssoc_absent ms name habs]
+            have habs : name ∉ (ms ++ xm).map (·.1) := by
+              rw [List.map_append, List.mem_append]
+              exact fun hm => hm.elim (fun hm => hname (hsub.subset hm)) hnx
+            rw [decodeFields, lookupAssoc_absent (ms ++ xm) name habs]
             simp only [h.1, Bool.false_eq_true, if_false]
-            rw [ihF fs vt ms hfs h.2 hnd' hj]
+            rw [ihF fs vt ms xm hfs h.2 hnd' hdis' hj]
           · rw [toJFields_cons_set _ _ _ _ _ _ hv] at hj
             have hnu : isUnset v = false := by
               cases hu : isUnset v with
@@ -225,13 +445,96 @@ theorem rt_all (tbl : LeafDec) : ∀ n : Nat,
                 subst hpr
                 subst hms
                 have hsub := toJFields_names_declared fs vt pm [] hr
-                have habs : name ∉ pm.map (·.1) := fun hm => hname (hsub.subset hm)
+                have habs : name ∉ (pm ++ xm).map (·.1) := by
+                  rw [List.map_append, List.mem_append]
+                  exact fun hm => hm.elim (fun hm => hname (hsub.subset hm)) hnx
                 have hdec := ihS s v j hs hrt hjv
-                rw [decodeFields, lookupAssoc_head pm name j habs]
-                simp only [hdec, eraseKey_head pm name j habs]
-                rw [ihF fs vt pm hfs h.2 hnd' hr]
+                rw [List.cons_append, decodeFields, lookupAssoc_head (pm ++ xm) name j habs]
+                simp only [hdec, eraseKey_head (pm ++ xm) name j habs]
+                rw [ihF fs vt pm xm hfs h.2 hnd' hdis' hr]
 
-/-- **C06, round trip through the schema tree** (leaf / array / object fragment, any depth). -/
+    · intro members vs ms hle h hnd hj
+      cases members with
+      | nil =>
+        cases vs with
+        | nil =>
+          simp only [toJMembers, Except.ok.injEq] at hj
+          subst hj
+          simp [decodeMembers]
+        | cons _ _ => simp [rtMembers] at h
+      | cons m rest =>
+        obtain ⟨b, s⟩ := m
+        have hrest : sizeOf rest ≤ n := by simp at hle; omega
+        cases s with
+        | obj fields a nl =>
+          have hfs : sizeOf fields ≤ n := by simp at hle; omega
+          simp only [declaredNames] at hnd
+          rw [List.nodup_append] at hnd
+          obtain ⟨hndF, hndR, hdisj⟩ := hnd
+          cases a with
+          | some _ => cases b <;> cases vs <;> simp [rtMembers] at h
+          | none =>
+            cases b with
+            | true =>
+              cases vs with
+              | nil => simp [rtMembers] at h
+              | cons v vt =>
+                cases v with
+                | obj fs ax =>
+                  cases ax with
+                  | some _ => simp [rtMembers] at h
+                  | none =>
+                    simp only [rtMembers, Bool.and_eq_true] at h
+                    simp only [toJMembers] at hj
+                    cases hjv : toJ (.obj fields none nl) (.obj fs none) with
+                    | error e => simp [hjv] at hj
+                    | ok j =>
+                      obtain ⟨mm, hjm, hf⟩ := toJ_obj_none fields nl fs j hjv
+                      subst hjm
+                      cases hr : toJMembers rest vt with
+                      | error e => simp [hjv, hr] at hj
+                      | ok more =>
+                        simp only [hjv, hr, Except.ok.injEq] at hj
+                        subst hj
+                        have hsubR := toJMembers_names_declared tbl rest vt more h.2 hr
+                        have hdis : ∀ k ∈ more.map (·.1), k ∉ fields.map (·.1) :=
+                          fun k hk hm => hdisj k hm k (hsubR.subset hk) rfl
+                        simp only [decodeMembers, ihF fields fs mm more hfs h.1 hndF hdis hf,
+                          ihM rest vt more hrest h.2 hndR hr]
+                | leaf _ _ => simp [rtMembers] at h
+                | null => simp [rtMembers] at h
+                | unset => simp [rtMembers] at h
+                | arr _ => simp [rtMembers] at h
+                | nilarr => simp [rtMembers] at h
+                | alt _ _ => simp [rtMembers] at h
+            | false =>
+              simp only [rtMembers, Bool.and_eq_true] at h
+              simp only [toJMembers] at hj
+              cases hf : toJFields fields vs with
+              | error e => simp [hf] at hj
+              | ok p =>
+                obtain ⟨mm, restv⟩ := p
+                simp only [hf] at hj
+                have hrestv := toJFields_rest fields vs mm restv hf
+                have htake := toJFields_take fields vs mm restv hf
+                cases hr : toJMembers rest restv with
+                | error e => simp [hr] at hj
+                | ok more =>
+                  simp only [hr, Except.ok.injEq] at hj
+                  subst hj
+                  rw [hrestv] at hr
+                  have hsubR := toJMembers_names_declared tbl rest _ more h.2 hr
+                  have hdis : ∀ k ∈ more.map (·.1), k ∉ fields.map (·.1) :=
+                    fun k hk hm => hdisj k hm k (hsubR.subset hk) rfl
+                  simp only [decodeMembers, ihF fields _ mm more hfs h.1 hndF hdis htake,
+                    ihM rest _ more hrest h.2 hndR hr, List.take_append_drop]
+        | prim _ _ => cases b <;> cases vs <;> simp [rtMembers] at h
+        | any => cases b <;> cases vs <;> simp [rtMembers] at h
+        | arr _ _ => cases b <;> cases vs <;> simp [rtMembers] at h
+        | allOf _ => cases b <;> cases vs <;> simp [rtMembers] at h
+        | oneOf _ _ => cases b <;> cases vs <;> simp [rtMembers] at h
+
+/-- **C06, round trip through the schema tree** (leaf / array / object / map / allOf fragment, any depth). -/
 theorem rt_roundtrip (tbl : LeafDec) (s : Schema) (v : Val) (j : J)
     (h : rt tbl s v = true) (hj : toJ s v = .ok j) : decode tbl s j = .ok v :=
   (rt_all tbl (sizeOf s)).1 s v j (Nat.le_refl _) h hj
@@ -248,7 +551,27 @@ def exSchema : Schema :=
 def exVal1 : Val := .obj [.leaf "7" "i:7", .unset, .obj [.null] none] none
 def exVal2 : Val := .obj [.leaf "7" "i:7", .arr [.leaf "\"a\"" "s:61", .leaf "\"a\"" "s:61"], .null] none
 
-example : rt exTbl exSchema exVal1 = true := by decide
-example : rt exTbl exSchema exVal2 = true := by decide
+example : rt exTbl exSchema exVal1 = true := by
+  simp [rt, rtFields, isUnset, exTbl, exSchema, exVal1, Kind.tag, List.find?]
+example : rt exTbl exSchema exVal2 = true := by
+  simp [rt, rtFields, rtList, isUnset, exTbl, exSchema, exVal2, Kind.tag, List.find?]
+  all_goals decide
+
+/-- … and a non-empty map with a null entry next to a declared property -/
+def exSchemaM : Schema := .obj [("id", true, .prim .int false)] (some (.prim .str true)) false
+def exValM : Val := .obj [.leaf "7" "i:7"] (some [("k1", .leaf "\"a\"" "s:61"), ("k2", .null)])
+example : rt exTbl exSchemaM exValM = true := by
+  simp [rt, rtFields, rtAddl, isUnset, exTbl, exSchemaM, exValM, Kind.tag, List.find?]
+  all_goals decide
+
+/-- … and a composition: one member by reference (an embedded struct), one inline (flattened) -/
+def exSchemaA2 : Schema :=
+  .allOf [(true, .obj [("id", true, .prim .int false)] none false), (false, .obj [("name", false, .prim .str false), ("n", false, .prim .int true)] none false)]
+def exValA2 : Val := .obj [.obj [.leaf "7" "i:7"] none, .leaf "\"a\"" "s:61", .unset] none
+example : rt exTbl exSchemaA2 exValA2 = true := by
+  simp [rt, rtMembers, rtFields, isUnset, exTbl, exSchemaA2, exValA2, Kind.tag, List.find?, declaredNames]
+  all_goals decide
+example : ∃ j, toJ exSchemaA2 exValA2 = .ok j := by
+  simp [toJ, toJMembers, toJFields, exSchemaA2, exValA2]
 
 end Goag.JsonM
